@@ -4,6 +4,7 @@ import (
 	"fmt"
 	"go/ast"
 	"go/types"
+	"regexp"
 	"sort"
 	"strings"
 
@@ -368,6 +369,37 @@ func checkVisibilityRules(p *core.Program, r *core.Report, rule string) {
 			Excl: [][2]string{{"aria.absent", "aria.true"}},
 		}
 		core.CheckDecisionList(r, rule, "IsProbablyVisible", paths, atoms, spec)
+		// The reviewed text of the pattern is pinned by the atom above (any other text is reported
+		// for review); in addition, what the pattern says about declarations (it is a constant of the
+		// source; it is compiled here and asked about fixed declarations - no code of the
+		// repository runs): it recognises the `visibility` property in any position of an inline
+		// style and no other property whose name merely ends in "visibility"
+		// (backface-visibility:hidden leaves the element visible; the unanchored pattern dropped
+		// such cells from retained data tables - defect repaired in domutil)
+		for a := range atoms {
+			if !strings.HasPrefix(a, "regexp.Regexp.MatchString(rx‹") || !strings.HasSuffix(a, `›,dom.GetAttribute($0,"style"))`) {
+				continue
+			}
+			pat := strings.TrimSuffix(strings.TrimPrefix(a, "regexp.Regexp.MatchString(rx‹"), `›,dom.GetAttribute($0,"style"))`)
+			re, err := regexp.Compile(pat)
+			if err != nil {
+				r.Undecided(rule, "the visibility pattern", err.Error())
+				continue
+			}
+			var wrong []string
+			for _, s := range []string{"visibility:hidden", "visibility: collapse", "visibility:collapse", "VISIBILITY:HIDDEN", "Visibility: Hidden", "visibility:hidden;", "color:red;visibility:hidden", "color:red; visibility: hidden",
+				"color:red;\tvisibility:collapse", "color:red;\nvisibility:hidden;display:block", "visibility:  hidden"} {
+				if !re.MatchString(s) {
+					wrong = append(wrong, "misses "+s)
+				}
+			}
+			for _, s := range []string{"backface-visibility:hidden", "-webkit-backface-visibility: hidden", "color:red;backface-visibility:hidden", "visibility:visible", "display:block"} {
+				if re.MatchString(s) {
+					wrong = append(wrong, "matches "+s)
+				}
+			}
+			r.Add(rule, "the visibility pattern recognises the visibility property and only that", "", len(wrong) == 0, strings.Join(wrong, "; ")+" [pattern "+pat+"]")
+		}
 	}
 	if gd := mustInl(p, r, rule, domutilPkg+".GetDisplayStyle"); gd != nil {
 		// the inline style decides first
